@@ -21,6 +21,7 @@ from .core import (VERIF_DIR, HarnessError, Sub, Violation, canon, derive_seed, 
 
 MAX_SAMPLE_CHARS = 6000
 MAX_VIOLATIONS_PER_SHARD = 4
+CASE_ALARM_S = int(os.environ.get("VERIF_CASE_ALARM_S", "600"))   # a case that runs this long is abandoned (inconclusive)
 
 
 def _shorten(case, sub: Sub):
@@ -69,7 +70,12 @@ class _ShardState:
             self.post_fail_calls += 1
         self.evals += 1
         try:
-            info = sub.check(case) or {}
+            info = self._check_with_alarm(case) or {}
+        except _CaseTimeout:
+            # wall clock is never a correctness signal: the case is set aside as inconclusive and counted
+            self.skipped_time += 1
+            self.classes["case-abandoned-after-%ds" % CASE_ALARM_S] += 1
+            return
         except Violation as v:
             fid = findings.match(self.prop, v.signature, self.open_entries)
             if fid:
@@ -97,6 +103,22 @@ class _ShardState:
                 self.samples.append(_shorten(case, sub))
         elif self.trivial_sample is None:
             self.trivial_sample = _shorten(case, sub)
+
+    def _check_with_alarm(self, case):
+        import signal
+
+        def on_alarm(signum, frame):
+            raise _CaseTimeout()
+        try:
+            old = signal.signal(signal.SIGALRM, on_alarm)
+        except ValueError:       # not in the main thread
+            return self.sub.check(case)
+        signal.alarm(CASE_ALARM_S)
+        try:
+            return self.sub.check(case)
+        finally:
+            signal.alarm(0)
+            signal.signal(signal.SIGALRM, old)
 
     def result(self, error=None):
         return {
@@ -226,7 +248,23 @@ def _fuzz_shard(st, sub, seed):
         shutil.rmtree(path + ".corpus", ignore_errors=True)
 
 
+class _CaseTimeout(BaseException):
+    pass
+
+
+def _limit_worker():
+    """A runaway allocation in the code under test must surface as MemoryError inside the case (reported as a crash
+    violation with a replayable input) instead of the kernel killing the worker, which would lose the case."""
+    try:
+        import resource
+        lim = int(os.environ.get("VERIF_WORKER_MEM_GB", "3")) * 2 ** 30
+        resource.setrlimit(resource.RLIMIT_AS, (lim, lim))
+    except Exception:  # noqa: BLE001
+        pass
+
+
 def _worker(modname, tier, sub_index, shard, base_seed):
+    _limit_worker()
     try:
         install_repo_path()
         mod = importlib.import_module(modname)
